@@ -169,6 +169,29 @@ def check_list(ctx, tu, info):
                     ctx.ob('C03.L3', f, 'the handle is resolved inside the critical section that removes the node', held,
                            detail='handle.lock() at %s happens before the mutex is taken: two threads removing the same handle both succeed'
                                   % f.nloc(n), where=f.nloc(n), key_detail='resolve under lock')
+    # L2 (mutators): no structural decision on the documented-racy empty() / operator bool outside the critical section
+    for name in MUTATORS:
+        for f in tu.fns_named('CallbackListBase::' + name):
+            for n in f.calls():
+                if (f.callee_key(n) or '') in ('CallbackListBase::empty', 'CallbackListBase::operator bool') and \
+                        (f.nodes[n].get('obj') is None or path(f, f.nodes[n]['obj']) == ('this',)):
+                    held = 'mutex' in info.held_names(f, f.pos(n))
+                    ctx.ob('C03.L2', f, '%s does not steer its linking by the unlocked empty() test' % name, held,
+                           detail='empty() at %s reads head without the mutex; another thread can add or remove the last callback before the lock is taken, '
+                                  'so the chosen linking path no longer fits the list (null dereference or misplaced node)' % f.nloc(n),
+                           where=f.nloc(n), key_detail='unlocked empty in mutator')
+    # L3 (insert): the decision that the before-node is still in the list is taken under the mutex that links the new node
+    from . import listrules as LR
+    for f in tu.fns_named('CallbackListBase::insert'):
+        hv = LR.handle_locked_vars(f)
+        for vid, (vname, hid, decl) in hv.items():
+            for n in f.calls():
+                if (f.callee_key(n) or '') == 'CallbackListBase::doInsert' and any(root_var_id(path(f, a)) == vid for a in f.call_args(n)):
+                    ok = LR.live_dominating(f, info, vid, vname, f.pos(n), need_lock=True)
+                    ctx.ob('C03.L3', f, 'insert decides under the list mutex that the before-callback is still in the list', ok,
+                           detail='the removed-mark test of `%s` is not made inside the critical section that links the new node at %s: a concurrent '
+                                  'remove between the test and the lock links the new callback to a node that is no longer in the list' % (vname, f.nloc(n)),
+                           where=f.nloc(n), key_detail='insert decision under lock')
     # L7
     for f in tu.fns:
         if cls_of(f) != 'CallbackListBase' or is_list_lifetime(f):
